@@ -515,7 +515,7 @@ fn build_scene(ctx: &Ctx) -> m::Scene {
 /// encoder files: attribute-group subsets x poses x state combinations x packetisations x all 64 option vectors
 pub fn view_space(ctx: &Ctx) {
     let scene = build_scene(ctx);
-    let k = Knobs { packets: true, cuts: true, max_packets: 3, non_data_packets: true, ..Knobs::NONE };
+    let k = Knobs { packets: true, cuts: true, max_packets: 3, non_data_packets: true, max_ignored: true, ..Knobs::NONE };
     let Some((enc, exp)) = model_file(ctx, &scene, k) else { return };
     ctx.describe(|| {
         format!(
